@@ -301,7 +301,7 @@ func escOps(ops []*Op, f func([]byte) []byte) []*Op {
 	for _, op := range ops {
 		c := *op
 		switch op.K {
-		case "SafeString", "UnsafeString", "Write", "WriteString", "SafeBytes", "UnsafeBytes":
+		case "SafeString", "UnsafeString", "Write", "WriteString", "SafeBytes", "UnsafeBytes", "IOCopy", "StdFprint":
 			c.S = f(op.S)
 		}
 		c.Args = nil
